@@ -804,8 +804,10 @@ impl<'a> Runner<'a> {
           if rec.completed { problem = Some((format!("dependency {pos} of task {t} in the store targets {:?}, the execution created {:?} at that position (store order {:?})", keys[e.target], tkey, real.iter().map(|e| keys[e.target].clone()).collect::<Vec<_>>()), String::new())); }
           break;
         }
-        let chk = e.checker.as_ref().map(|c| super::trk::render_val(c.as_ref()));
-        let stamp = e.stamp.as_ref().map(|c| super::trk::render_val(c.as_ref()));
+        let (chk, stamp) = match (e.checker.as_ref(), e.stamp.as_ref()) {
+          (Some(c), Some(s)) => { let p = super::trk::render_pair(c.as_ref(), s.as_ref()); (Some(p.0), Some(p.1)) }
+          (c, s) => (c.map(|c| super::trk::render_val(c.as_ref())), s.map(|c| super::trk::render_val(c.as_ref()))),
+        };
         let serial = match &stamp { Some(ValR::RStamp(s)) => s.serial, Some(ValR::OStamp(s)) => s.serial, _ => 0 };
         let Some(ai) = d.serials.iter().position(|s| *s == serial) else {
           problem = Some((format!("dependency {pos} of task {t} ({:?}) carries stamp {:?}, which its latest execution did not create (its stamps: {:?})", tkey, stamp, d.serials), String::new()));
@@ -981,7 +983,12 @@ impl<'a> Runner<'a> {
     let prog = self.prog.clone();
     let ntasks = prog.tasks.len();
     let aborted = res.abort.is_some();
-    let probe_after_bu = matches!(kind, SessionKind::TopDown(_)) && self.last_bu_complete && self.changed.is_empty() && fault_free;
+    // A checker that is inconsistent although nothing changed (zero-sized-stamp kinds: volatile, bound exceeded) makes its
+    // owner run in every build: "executes nothing when nothing changed" is not a statement about such programs.
+    fn has_zst(ops: &[Op]) -> bool { ops.iter().any(|o| match o { Op::Read { chk, .. } => chk.is_zst(), Op::If { then, els, .. } => has_zst(then) || has_zst(els), Op::Switch { cases, .. } => cases.iter().any(|c| has_zst(c)), _ => false }) }
+    let zst_program = prog.tasks.iter().any(|t| has_zst(&t.ops));
+    let is_repeat = is_repeat && !zst_program;
+    let probe_after_bu = matches!(kind, SessionKind::TopDown(_)) && self.last_bu_complete && self.changed.is_empty() && fault_free && !zst_program;
     let mut in_bu_phase = false;
     let mut builds_started = 0u32;
     let mut exec_count = vec![0u32; ntasks];
